@@ -85,7 +85,7 @@ DIST_TRACE = {"name": "dist-trace", "kind": "trace", "files": ["DecArith.tla", "
 VESTF = ["DecArith.tla", "VestingMath.tla", "Vesting.tla", "mc/MC_Vesting.tla"]
 VEST_TRACE = {"name": "vesting-trace", "kind": "trace", "files": VESTF + ["trace/Trace_Vesting.tla"], "module": "trace/Trace_Vesting.tla",
               "cfg": "trace/Trace_Vesting.cfg", "recorder": "trace-vesting", "corrupt_event": "msg", "corrupt_field": None, "corrupt_path": ["post", "modBal"],
-              "diag_owner": [("ok", None), ("pools", "C05"), ("modBal", "C05"), ("acct", None), ("locked", None), ("bal", None), ("traces", "C17"), ("summary", "C17")],
+              "diag_owner": [("ok", None), ("events", "C18"), ("pools", "C05"), ("modBal", "C05"), ("acct", None), ("locked", None), ("bal", None), ("traces", "C17"), ("summary", "C17")],
               "header": {"files": VESTF + ["mc/MBT_Vesting.tla"], "module": "mc/MBT_Vesting.tla", "cfg": "mc/MBT_Vesting_header.cfg"},
               "default_owner": "C05", "event_owner": {"msg": "C05", "delegate": "C07", "configure": "C05"},
               "msg_owner": {"createpool": "C05", "withdraw": "C06", "send": "C08", "createacc": "C08", "split": "C07", "move": "C07", "movedenoms": "C07"},
@@ -93,6 +93,16 @@ VEST_TRACE = {"name": "vesting-trace", "kind": "trace", "files": VESTF + ["trace
                                   "C06_Lock": "C06", "C06_WithdrawnOnlyAfter": "C06", "C06_WithdrawExact": "C06", "C18_WithdrawEvents": "C18", "C07_Exact": "C07",
                                   "C08_Send": "C08", "C08_Create": "C08", "C09_NoOverwrite": "C09", "C17_Lineage": "C17"},
               "quick": dict(traces=150), "thorough": dict(traces=3000, timeout=3000)}
+
+CHAINF = ["DecArith.tla", "MinterMath.tla", "Minter.tla", "Distributor.tla", "Chain.tla", "mc/MBT_Chain.tla"]
+CHAIN_TRACE = {"name": "chain-trace", "kind": "trace", "files": CHAINF + ["trace/Trace_Chain.tla"], "module": "trace/Trace_Chain.tla",
+               "cfg": "trace/Trace_Chain.cfg", "recorder": "trace-chain", "corrupt_event": "block", "corrupt_field": None, "corrupt_path": ["post", "supply", "uc4e"],
+               "header": {"files": CHAINF, "module": "mc/MBT_Chain.tla", "cfg": "mc/MBT_Chain_header.cfg"},
+               "default_owner": "C01", "event_owner": {"block": "C01", "update": "C13", "configure": "C13", "fee": "C03", "opaque": "C01", "export": "C12"},
+               "diag_owner": [("ok", None), ("supply", "C01"), ("minter", "C02"), ("bal", "C04"), ("rem", "C03")],
+               "invariant_owner": {"SupplyLedger": "C01", "BooksMatch": "C03", "NeverHalts": "C10", "CurrentPeriodExists": "C13",
+                                   "SupplyOnlyInBlocks": "C01", "SupplyDeltaIsMintMinusBurn": "C01"},
+               "quick": dict(traces=60), "thorough": dict(traces=1500, timeout=3000)}
 
 MINTER_NUM = {"name": "minter-numeric", "kind": "num", "no_tlc": True, "files": [], "module": None, "harness": "numminter", "checker": "check_minter",
               "quick": dict(steps=300, apalache_samples=40), "thorough": dict(steps=6000, apalache_samples=600, apalache_timeout=2400)}
@@ -112,17 +122,17 @@ CHAIN_ASSUME = TRUST + ["full-app BeginBlocker / EndBlocker are run on the deliv
                         "export / import goes through the module manager's ExportGenesis (build-tag hook VerifModuleManager), ModuleBasics.ValidateGenesis and InitChain of a fresh application"]
 
 PROPS = {
-    "C01": {"level": "model_checking", "stages": [CHAIN_MBT, DIST_MULTI, DIST_CUR, VEST_POOLS, MINTER_SCHED], "assumptions": CHAIN_ASSUME},
-    "C10": {"level": "model_checking", "stages": [CHAIN_MBT, MINTER_UPD, DIST_CUR, DIST_UPD, MINTER_NUM, DIST_HUGE], "assumptions": CHAIN_ASSUME},
+    "C01": {"level": "model_checking", "stages": [CHAIN_MBT, DIST_MULTI, DIST_CUR, VEST_POOLS, MINTER_SCHED, CHAIN_TRACE], "assumptions": CHAIN_ASSUME},
+    "C10": {"level": "model_checking", "stages": [CHAIN_MBT, MINTER_UPD, DIST_CUR, DIST_UPD, MINTER_NUM, DIST_HUGE, CHAIN_TRACE], "assumptions": CHAIN_ASSUME},
     "C11": {"level": "model_checking", "stages": [CHAIN_REPL], "assumptions": CHAIN_ASSUME + ["Tendermint and IAVL are trusted; replicas are application instances fed the same ABCI calls"]},
-    "C12": {"level": "model_checking", "stages": [CHAIN_MBT, MINTER_SCHED, DIST_CUR, VEST_ACCTS, SIG_MBT], "assumptions": CHAIN_ASSUME},
-    "C13": {"level": "model_checking", "stages": [MINTER_UPD, DIST_UPD, VEST_ACCTS, CHAIN_MBT], "assumptions": CHAIN_ASSUME},
+    "C12": {"level": "model_checking", "stages": [CHAIN_MBT, MINTER_SCHED, DIST_CUR, VEST_ACCTS, SIG_MBT, CHAIN_TRACE], "assumptions": CHAIN_ASSUME},
+    "C13": {"level": "model_checking", "stages": [MINTER_UPD, DIST_UPD, VEST_ACCTS, CHAIN_MBT, CHAIN_TRACE], "assumptions": CHAIN_ASSUME},
     "C16": {"level": "model_checking", "stages": [UPG_MBT],
             "assumptions": TRUST + ["the upgrade is executed as its parts (the three Migrator.Migrate2to3, v120.UpdateVestingAccountTraces, ModifyVestingPoolsState, ModifyVestingAccountsState) on a store filled with legacy-format records; x/upgrade plan handling and the ICA module initialisation are not driven"]},
     "C20": {"level": "model_checking", "stages": [HOST_MBT, VEST_ACCTS, SIG_MBT, DIST_UPD, MINTER_UPD],
             "assumptions": TRUST + ["field value classes are concretised by the harness (one representative per class); handlers are called through the modules' message servers, queries through the keepers' gRPC methods",
                                     "a panic of a handler on a message that ValidateBasic rejects is counted (handler-only) but not reported: a signer cannot reach it"]},
-    "C18": {"level": "model_checking", "stages": [MINTER_SCHED, DIST_CUR, VEST_POOLS], "assumptions": TRUST},
+    "C18": {"level": "model_checking", "stages": [MINTER_SCHED, DIST_CUR, VEST_POOLS, VEST_TRACE], "assumptions": TRUST},
     "C19": {"level": "model_checking", "stages": [MINTER_MC, MINTER_SCHED, MINTER_UPD, MINTER_NUM], "assumptions": TRUST + ["inflation is compared with the model value within 2/P (the model truncates the same rational at 1/P twice)"]},
     "C05": {"level": "model_checking", "stages": [VEST_MC, VEST_POOLS, VEST_TRACE], "assumptions": VEST_ASSUME},
     "C06": {"level": "model_checking", "stages": [VEST_MC, VEST_POOLS, VEST_TRACE], "assumptions": VEST_ASSUME},
